@@ -433,21 +433,24 @@ def c19():
 PROPERTIES = {
     "C01": dict(jobs=c01, title="A handle resolves iff its entity is alive; stale handles never resolve"),
     "C02": dict(jobs=c02, title="Every access path returns the entity's own, latest component values"),
-    "C03": dict(jobs=c03, title="Arbitrary, forged or foreign handles are memory-safe and never match by accident"),
-    "C05": dict(jobs=c05_e1, title="Queries act on exactly the matching archetypes"),
+    "C03": dict(e2=True, jobs=c03, title="Arbitrary, forged or foreign handles are memory-safe and never match by accident"),
+    "C05": dict(e2=True, jobs=c05_e1, title="Queries act on exactly the matching archetypes"),
     "C04": dict(jobs=c04, title="Each component value is dropped exactly once"),
     "C06": dict(jobs=c06, title="Iteration visits every matching live entity exactly once"),
     "C07": dict(jobs=c07, title="ecs_iter_destroy! visits once, destroys exactly the flagged ones"),
-    "C08": dict(jobs=c08, title="No handle is ever issued twice"),
+    "C08": dict(e2=True, jobs=c08, title="No handle is ever issued twice"),
     "C09": dict(jobs=c09, title="A direct handle never designates another entity and dies with any removal"),
     "C10": dict(jobs=c10, title="A panic leaves the world consistent"),
     "C11": dict(jobs=c11, title="Runtime-borrowed access panics instead of aliasing"),
-    "C12": dict(jobs=c12, title="len and capacity are exact"),
+    "C12": dict(e2=True, jobs=c12, title="len and capacity are exact"),
     "C13": dict(jobs=c13, title="A cloned world is identical and independent"),
-    "C14": dict(jobs=c14_e1, title="Handle conversions are lossless"),
-    "C15": dict(jobs=c15_e1, title="Ids follow the discriminant rule"),
+    "C14": dict(e2=True, jobs=c14_e1, title="Handle conversions are lossless"),
+    "C15": dict(e2=True, jobs=c15_e1, title="Ids follow the discriminant rule"),
+    "C16": dict(e2=True, jobs=lambda: [J("c16_query_cfg_params", Q, 100, what="real queries with #[cfg(any())] / #[cfg(all())] parameters behave as the erased / unannotated query (E1 corpus)", bounds="one world, 4 queries"),
+                                       J("c16_decl_cfg_items", Q, 100, what="real declaration with cfg-disabled archetype and component: ids, matching and storage as if absent (E1 corpus)", bounds="one declaration")],
+                title="#[cfg]-disabled items behave as absent"),
     "C17": dict(jobs=c17, title="Event logs are exact"),
-    "C19": dict(jobs=c19, title="Features and profiles change nothing else"),
+    "C19": dict(e2=True, jobs=c19, title="Features and profiles change nothing else"),
 }
 
 
